@@ -158,12 +158,27 @@ func init() {
 			return true
 		})
 		expect(debugDirChain != "", "toolexecCmd: the if-chain starting with os.ReadDir(flagDebugDir) was not found")
+		// what follows the chain inside `if flagDebugDir != ""`: the directory and its ownership marker are created at once
+		var debugDirCreate []string
+		ast.Inspect(findFunc(mp, "toolexecCmd").Body, func(n ast.Node) bool {
+			ifs, ok := n.(*ast.IfStmt)
+			if !ok || len(debugDirCreate) > 0 {
+				return true
+			}
+			var cond bytes.Buffer
+			format.Node(&cond, mp.fset, ifs.Cond)
+			if cond.String() == `flagDebugDir != ""` {
+				debugDirCreate = callsInOrder(ifs.Body, map[string]bool{"ReadDir": true, "RemoveAll": true, "MkdirAll": true, "WriteFile": true})
+			}
+			return true
+		})
+		expect(len(debugDirCreate) > 0, "toolexecCmd: the `if flagDebugDir != \"\"` block was not found")
 		var sb strings.Builder
 		sb.WriteString(header + "namespace GV.Gen\n")
 		for _, x := range []struct {
 			name string
 			l    []string
-		}{{"linkerSteps", linkerSteps}, {"toolexecLinkSteps", toolexec}, {"buildCommandSteps", buildCmd}, {"reverseCommandSteps", rev}, {"mapCommandSteps", mapc}} {
+		}{{"linkerSteps", linkerSteps}, {"toolexecLinkSteps", toolexec}, {"buildCommandSteps", buildCmd}, {"reverseCommandSteps", rev}, {"mapCommandSteps", mapc}, {"debugDirSetupSteps", debugDirCreate}} {
 			fmt.Fprintf(&sb, "def %s : List String := %s\n", x.name, leanStrList(x.l))
 		}
 		fmt.Fprintf(&sb, "def rejectLoopShape : String := %s\n", leanStr(rejectLoop))
